@@ -58,7 +58,8 @@ def gen_prog(rng, o, ty, nb, kind):
         elif r < 0.88 + o['p_readbus'] + o['p_redispatch'] and nslots:
             prog.append(['redispatch', rng.randrange(nslots), rng.randrange(nb)])
         elif r > 1 - o['p_raise']:
-            prog.append(['raise'])
+            # (one raise in five is a CancelledError the handler lets escape from a cancelled helper task it awaits)
+            prog.append(['raise_cancelled'] if rng.random() < 0.2 else ['raise'])
             break
     return prog
 
@@ -347,6 +348,29 @@ def gen_partimeout(rng, **_):
             main.append(['await', i])
     if rng.random() < 0.4:
         main.append(['waitidle', 0])
+    sc['tasks'].append(main)
+    return sc
+
+
+def gen_cycle(rng, **_):
+    """a handler dispatches the parent of the event it is handling (to the same or another bus): the child relation of the
+    events becomes cyclic; followed by wait_until_idle() on every bus"""
+    nb = rng.randint(1, 2)
+    sc = {'buses': [{'parallel': rng.random() < 0.2, 'maxh': 50, 'wal': False} for _ in range(nb)],
+          'types': {t: {'timeout': None} for t in 'ABCD'}, 'handlers': [], 'tasks': []}
+    cb = rng.randrange(nb)
+    sc['handlers'].append({'bus': 0, 'key': 'A', 'kind': 'async',
+                           # (not awaited: awaiting a child that makes its own parent its child is a dependency cycle of the client's making)
+                           'prog': [['dispatch', cb, 'B', 0], ['sleep', rng.choice([0, 1 / 64])]]})
+    sc['handlers'].append({'bus': cb, 'key': 'B', 'kind': rng.choice(['async', 'sync']),
+                           'prog': [['redispatch_parent', rng.randrange(nb)]]})
+    for b in range(nb):
+        if rng.random() < 0.6:
+            sc['handlers'].append({'bus': b, 'key': rng.choice(['A', '*']), 'kind': 'async', 'prog': [['sleep', rng.choice([0, 1 / 64])]]})
+    main = [['dispatch', 0, 'A', 0]]
+    if rng.random() < 0.5:
+        main.append(['await', 0])
+    main += [['waitidle', b] for b in range(nb)]
     sc['tasks'].append(main)
     return sc
 
